@@ -13,28 +13,28 @@ CHECKS = {
             "DESIGN.md §5 C05", "Every call's outcome and the full observable state are compared with an executable sequential model, plus PRNG range-bound probes; no fault involved (fault-free configuration of the simulator).",
             "Reference model is the specification oracle; SimFs/deterministic hasher as above."),
     "C06": ("exploration", "deterministic simulation: directory-listing invariant checked from the SimFs effect trace after every truncate/delete/open",
-            "DESIGN.md §5 C06", "Roll-over heavy seeded histories; the SimFs listing and disk_used_bytes are compared with a bound derived independently from the write cursor and the model's retained records.",
+            "DESIGN.md §5 C06", "Roll-over heavy seeded histories; the SimFs listing and disk_used_bytes are compared with a bound derived independently from the write cursor and the model's retained records; every third history is also crashed at sampled points and the same upper bound is required of the recovered log (replay attribution computed by an independent WAL parser).",
             "Verdict on fault-free histories only; attribution of a record = file holding the write cursor when its append began."),
     "C15": ("exploration", "deterministic simulation: wal_bytes_written compared with Write effects recorded by the simulated FS",
             "DESIGN.md §5 C15", "Per call (Always policies) or per flush point (others) the reported byte counts must equal the bytes that reached WAL files, and the running sum must sit on the FS write cursor.",
             "Bytes written by open's own GC are excluded (documented by the crate)."),
     "C16": ("exploration", "deterministic simulation: accounting invariant monitored after every call of simulated histories",
-            "DESIGN.md §5 C16", "State invariant (bounds on memory_used_bytes relative to the model's retained data) monitored during seeded histories incl. restarts. Weakest fit for the technique: no fault/time/IO enters the property.",
+            "DESIGN.md §5 C16", "State invariant (bounds on memory_used_bytes relative to the model's retained data) monitored during seeded histories incl. restarts, and on logs recovered from damaged images relative to the state they show. Weakest fit for the technique: no fault/time/IO enters the property itself.",
             "Per-record overhead bound 64 B (today 24 B)."),
     "C17": ("exploration", "deterministic simulation: foreign directory entries injected into the simulated FS, effect-trace oracle",
-            "DESIGN.md §5 C17", "Directory pre-populated with near-miss names, dirs and symlinks (also named like WAL files); every FS effect must target a wal-<20 digits> regular file; foreign entries stay byte-identical.",
+            "DESIGN.md §5 C17", "Directory pre-populated with near-miss names, dirs and symlinks (also named like WAL files, inside and above the live number range); every FS effect must target a wal-<20 digits> regular file; foreign entries stay byte-identical; the same history without the foreign entries must behave identically; WAL files renumbered with gaps must open to the same state and continue after the highest number.",
             "SimFs file_type semantics (no symlink following) as std::fs::DirEntry::file_type on Linux."),
     "C02": ("fault_enumeration", "deterministic simulation with crash injection: disk images rebuilt from the effect trace at every crash point, real recovery, allowed-state oracle, continuation and second crash",
             "DESIGN.md §5 C02", "Inside each seeded history the crash points (effect boundaries, torn-write offsets) are enumerated (completely in the thorough tier, seeded sample that always contains create/set_len/unlink boundaries in the quick tier); across histories the search is seeded sampling.",
             "Process-crash model (effects reach the OS in program order). Crash images come from an uninterrupted execution's effect trace."),
     "C03": ("fault_enumeration", "deterministic simulation with crash and power-loss injection: persisted-superset oracle at every crash point under every persist policy",
-            "DESIGN.md §5 C03", "Every crash boundary of each seeded history under two loss models (OS view; durable view + seeded subset of unsynced effects); the recovered state must contain everything persisted at the last obliging call and invent nothing.",
+            "DESIGN.md §5 C03", "Every crash boundary of each seeded history under two loss models (OS view; durable view + seeded subset of unsynced effects); the recovered state must contain everything persisted at the last obliging call and invent nothing; sampled points continue on the recovered log and crash again after every further call.",
             "Power-loss model: unsynced file data lost per 512-byte sector, set_len independently, directory operations as a prefix of program order; fdatasync persists content+length, directory fsync persists names."),
     "C04": ("exploration", "deterministic simulation: model-independent high-water-mark monitor over histories, restarts and crash recoveries",
             "DESIGN.md §5 C04", "Idle-queue histories with roll-over and GC; positions returned by appends are compared with a high-water mark kept outside the model, live, across restarts and after recovery from sampled crash points.",
             "Flush-per-operation policies, process-crash model (as the statement says)."),
     "C11": ("fault_enumeration", "deterministic simulation with I/O-error injection at every recovery file-system call",
-            "DESIGN.md §5 C11", "For each seeded WAL image every readdir/file_type/open/seek/read call of recovery is failed (transient and persistent, several errnos, partial reads); open must return Err(IoError) within a step budget.",
+            "DESIGN.md §5 C11", "For each seeded WAL image (a third of them damaged first, so that the reader's resync paths run) every readdir/file_type/open/seek/read call of recovery is failed (transient and persistent, several errnos, partial reads); open must return Err(IoError) within a step budget.",
             "Step budget (fault-free calls + 50) is the deterministic definition of 'promptly'; write-path errors not injected."),
     "C08": ("exploration", "deterministic simulation with storage-damage injection between incarnations: in-place overwrites aimed by an independent WAL parser",
             "DESIGN.md §5 C08", "Seeded histories x 1-4 aimed or uniform in-place overwrites of the cleanly dropped image; every recovered record must be one that was appended to that queue, positions strictly increasing.",
@@ -49,7 +49,7 @@ CHECKS = {
             "DESIGN.md §5 C12", "Batch-heavy seeded histories; crash points as C02 (plus power loss under Always(FlushAndFsync)) and single-frame payload/header damage of every frame of batch entries; each batch must be recovered whole, not at all, or minus a truncated leading part.",
             "As C02 and C08; batches identified by the unique op id inside every payload."),
     "C07": ("exploration", "deterministic simulation (fault-free configuration): directed alignment grid over simulated WAL files, independent WAL parser as oracle",
-            "DESIGN.md §5 C07", "Cursor-steered directed histories cover the complete (bytes left before) x (bytes left after) x (blocks spanned) x (what follows) grid in the quick tier already, plus random cells; the SimFs image is parsed by independent code and compared with what was written; restart round-trip and end-of-log cursor agreement.",
+            "DESIGN.md §5 C07", "Cursor-steered directed histories cover the complete (bytes left before) x (bytes left after) x (blocks spanned) x (what follows, 7 kinds incl. a torn tail left by a process death inside the next entry) grid in the quick tier already, plus random cells; the SimFs image is parsed by independent code and compared with what was written; restart round-trip and end-of-log cursor agreement.",
             "Pure input-space property: no fault injected; the simulator contributes simulated files (roll-over mid-entry), restart at the same alignment, short-write/EINTR buggify."),
     "C13": ("exploration", "deterministic simulation: per-call effect-trace oracle plus differential run (history with / without rejected and no-op calls) on simulated disks",
             "DESIGN.md §5 C13", "Rejected / no-op calls of 7 shapes are inserted into seeded histories; each must perform no mutating FS effect and report 0 bytes; aligned calls of both runs must produce identical outcomes, states and write effects, and byte-identical final images.",
@@ -58,7 +58,7 @@ CHECKS = {
             "DESIGN.md §5 C14", "Same explicit call sequence (with clock ticks and explicit persists) under DoNothing, OnDelay (4 intervals x 2 actions), Always(Flush), Always(FlushAndFsync); executions must agree on every outcome and observable state.",
             "Simulated Instant behind the H4 hook; wal_bytes_written / image equality are statistics only."),
     "C18": ("exploration", "deterministic simulation: metamorphic projection (history vs history restricted to one queue) on separate simulated disks, live and after injected crashes",
-            "DESIGN.md §5 C18", "For every queue of every seeded history the projection runs on a fresh simulated disk; outcomes and the queue's observable content must agree at corresponding points; crash variant recovers from crashes inside calls addressed to other queues.",
+            "DESIGN.md §5 C18", "For every queue of every seeded history the projection runs on a fresh simulated disk; outcomes and the queue's observable content must agree at corresponding points; crash variant recovers from crashes inside calls addressed to other queues and keeps using the queue on the recovered log and on the never-crashed projection.",
             "No reference model involved in the oracle; process-crash model in the crash variant."),
 }
 
